@@ -10,6 +10,7 @@ import (
 	"sync"
 	"time"
 
+	"github.com/KevoDB/kevo/pkg/verifhook"
 	"github.com/KevoDB/kevo/pkg/wal"
 )
 
@@ -175,6 +176,7 @@ func linGatedCmd(args []string) int {
 	if *imm {
 		cc.MemTableSize = 700
 	}
+	verifhook.Emit("h.reset", "\"a\":0,\"b\":0,\"sync\":0")
 	eng, err := openEngine(*dir, &cc)
 	if err != nil {
 		fmt.Fprintln(stderr, err)
